@@ -1361,13 +1361,19 @@ impl TypedExpr {
                 }
             }
             ExprEnum::StructLiteral(struct_name, fields) => {
-                let fields: HashMap<_, _> = fields.iter().cloned().collect();
+                // the field values are evaluated in the order in which they are written (the
+                // parser sorts the fields by name), their wires follow the struct definition:
+                let mut fields_as_written: Vec<_> = fields.iter().collect();
+                fields_as_written.sort_by_key(|(_, value)| value.meta);
+                let mut compiled_fields = HashMap::new();
+                for (field_name, value) in fields_as_written {
+                    compiled_fields.insert(field_name, value.compile(prg, env, circuit));
+                }
                 let struct_def = prg.struct_defs.get(struct_name.as_str()).unwrap();
                 let mut wires =
                     Vec::with_capacity(ty.size_in_bits_for_defs(prg, circuit.const_sizes()));
                 for (field_name, _) in struct_def.fields.iter() {
-                    let value = fields.get(field_name).unwrap();
-                    wires.extend(value.compile(prg, env, circuit));
+                    wires.extend(compiled_fields.remove(field_name).unwrap());
                 }
                 wires
             }
